@@ -117,11 +117,13 @@ class Proof:
         base = os.path.join(self.wd, '%s__%s' % (self.unit.replace('/', '_'), self.name))
         gb0, gb1 = base + '.0.gb', base + '.1.gb'
         srcs = [self.cfile] + [x for x in s.get('extra_sources', [])]
-        cmd = ['goto-cc', '--function', s['harness'], '-o', gb0] + list(s.get('cc_flags', [])) + list(extra_defs) + srcs
+        cmd = ['goto-cc', '-Wall', '--function', s['harness'], '-o', gb0] + list(s.get('cc_flags', [])) + list(extra_defs) + srcs
         rc, out, dt, to = sh(cmd, 300)
         self.log += '$ ' + ' '.join(cmd) + '\n' + out
         if rc != 0:
             raise ToolError('goto-cc failed:\n' + out[-3000:])
+        if re.search(r"is not declared|implicit function declaration", out):
+            raise ToolError('goto-cc: call to an undeclared function (implicit int declaration would change semantics):\n' + out[-2000:])
         cur = gb0
         if s.get('pre_unwindset'):
             gbp = base + '.p.gb'
